@@ -7,6 +7,7 @@ import SdcModel.Proofs.ScalarsDecVal
 import SdcModel.Proofs.ScalarsDecLex
 import SdcModel.Proofs.ScalarsDur
 import SdcModel.Proofs.ScalarsDurFp
+import SdcModel.Proofs.ScalarsDurLex
 import SdcModel.Proofs.ScalarsEnum
 import SdcModel.Generated.ScalarsEnums
 /-!
@@ -151,6 +152,21 @@ example : ¬ IntegerLex (xmlStrip [49, 95, 48, 48, 48]) := by   -- '1_000'
   obtain ⟨i, hi⟩ := this
   have : intToPy [49, 95, 48, 48, 48] = .error .value := by decide
   rw [this] at hi; cases hi
+
+/-- durations: anything outside `PT(\d+H)?(\d+M)?(\d+(\.\d+)?S)?` with at least one component (ASCII digits; one
+    trailing newline tolerated, as `$` of the pattern does) is rejected … -/
+theorem lexical_reject_duration (s : Str) (h : ¬ DurationLex (dropNewline s)) : parseDurationUs s = .error .value :=
+  parseDurationUs_reject s h
+
+/-- … and every string of that shape is recognised with exactly its groups -/
+theorem lexical_accept_duration (oh om : Option Str) (os : Option (Str × Str))
+    (hh : ∀ d, oh = some d → DigitsNE d) (hm : ∀ d, om = some d → DigitsNE d)
+    (hs : ∀ d f, os = some (d, f) → DigitsNE d ∧ ∀ c ∈ f, isDigit c = true)
+    (hsome : oh.isSome ∨ om.isSome ∨ os.isSome) :
+    durationGroups (80 :: 84 :: (renderH oh ++ (renderM om ++ renderS os))) = some (oh, om, os) :=
+  durationGroups_render oh om os hh hm hs hsome
+
+example : parseDurationUs [80, 49, 68] = .error .value := by decide   -- 'P1D'
 
 /-- enums: a string that is not a literal of the class is rejected; an accepted one is written back unchanged -/
 theorem lexical_reject_enum (lits : List Str) (s : Str) (h : s ∉ lits) : enumToPy lits s = .error .value :=
